@@ -115,6 +115,8 @@ def gen(rng, tier):
     # callbacks that run kernel operations, incl. cancel() and late results, with all canceller kinds
     for _ in range(500 if tier == "quick" else 8000):
         cases.append(K.rand_script_program(rng, rng.randrange(1, 5), rng.randrange(2, 14), cancellers=True, pauses=False))
+    # the exact type of a Deferred must not matter: a sample once more with trivial-subclass instances
+    cases += K.with_subclasses(cases, rng, 0.08 if tier == "quick" else 0.04)
     # Deferred debugging (defer.setDebugging(True)) must not change anything observable: a sample once more with it on
     cases += K.with_debug(cases, rng, 0.12 if tier == "quick" else 0.08)
     return cases
